@@ -7382,6 +7382,18 @@ class Circle(_RoundShape):
     def __copy__(self):
         return Circle(self)
 
+    def render(self, **kwargs):
+        width = kwargs.get("width")
+        height = kwargs.get("height")
+        if isinstance(width, (int, float)) and isinstance(height, (int, float)):
+            # A percentage r refers to the normalized diagonal of the viewport, not to its width or height.
+            diagonal = sqrt((width * width + height * height) / 2.0)
+            if isinstance(self.rx, Length) and self.rx.units == "%":
+                self.rx = self.rx.value(relative_length=diagonal)
+            if isinstance(self.ry, Length) and self.ry.units == "%":
+                self.ry = self.ry.value(relative_length=diagonal)
+        return _RoundShape.render(self, **kwargs)
+
     def _name(self):
         return self.__class__.__name__
 
